@@ -229,6 +229,10 @@ VALUES = {  # label -> (value expression evaluated by the module's own construct
     "quintuplet-16th": (20.0, (Fraction(16), 0, (5, 4))), "sixteenth": (16, (Fraction(16), 0, (1, 1))),
     "eighth": (8, (Fraction(8), 0, (1, 1))),
     "dotted-breve": (0.5 / 1.5, (Fraction(1, 2), 1, (1, 1))), "double-dotted-longa": (0.25 / 1.75, (Fraction(1, 4), 2, (1, 1))),
+    # the value Track.from_chords stores for the last piece of a double-dotted breve split over 7/8 bars (value.subtract
+    # twice): ten ulps off dots(4, 2); and subtract(add(dots(16, 2), dots(1)), dots(1))
+    "carried-double-dotted-quarter": (2.2857142857142834, (Fraction(4), 2, (1, 1))),
+    "round-trip-double-dotted-16th": (9.142857142857125, (Fraction(16), 2, (1, 1))),
 }
 
 
